@@ -1,6 +1,9 @@
 import Abmarl.Props.Examples
 import Abmarl.Spec.Pacman
 import Abmarl.Lemmas.Pacman
+import Abmarl.Lemmas.PacmanFloat
+import Abmarl.Lemmas.PacmanObs
+import Abmarl.Lemmas.PacmanStep
 /-!
 # `PacmanSim` / `PacmanSimSimple` (`abmarl/examples/sim/pacman.py`): what is proved
 
@@ -23,13 +26,17 @@ Proved here, for EVERY configuration (either class, any grid, agent mix, overlap
   `WInv` (`pacman_reset_after_anything`);
 * witnesses (`decide`): the three things the brief asked to decide — see the section "Witnesses" and MERGE_NOTES.md.
 
-NOT proved (stated in full below, judged at run time on every step of the streams by `PM.specPM`):
-`pacman_reachable_WInvFloat` (the cell structure: every stored agent's position is that cell, no two occupants that may not
-overlap — in every reachable state), `pacman_step_keeps_WInv` and `pacman_step_noRaise` (a step from a state satisfying the
-explicit decidable hypothesis `PM.stepPre` returns and leaves a `WInv` world), `pacman_observations_in_space`.  Missing for
-them: the move lemmas of the C03 library are stated for `WInv` worlds with an ACTIVE mover; between the first overlap loop
-and the end of `PacmanSim.step` a dead pacman is still stored in its cell, so they have to be transported (e.g. through the
-world in which pacman is revived, as `RT.heal` does for the observers) or re-proved for `WInvFloat`.
+Proved since (round 6, workstream PAC2 — nothing of the former block "Stated, not proved" is left):
+
+* **C03** `pacman_reachable_WInvFloat`, `pacman_simIface_WInvFloat`, `pacman_reachable_positions_in_grid`: the cell structure
+  `PM.WInvFloat` and "every stored position is a grid cell" in EVERY reachable state, raising steps included
+  (Lemmas/PacmanFloat.lean: `grid.remove`, unchecked `grid.place`, the `DriftMoveActor` for ANY mover, the teleport);
+* **C02** `pacman_observations_in_space`: `get_obs` of every agent returns exactly the declared keys with values in the declared
+  spaces in every reachable state (Lemmas/PacmanObs.lean: the observer theorems from `WInvFloat` — no transport exists);
+* **C02 / C03** `pacman_step_keeps_WInv`, `pacman_step_noRaise`: a step from a `PM.stepPre` state returns and leaves `WInv` and
+  `teleSafe` (Lemmas/PacmanStep.lean: the invariant `PM.Mid` of the middle of a step);
+* **C02** `pacman_hist` (Props/PacmanHist.lean): under `PM.pmPre` the model's trace satisfies the judge `PM.specPM`;
+* `pacman_example_grid_cfgWF_teleSafe` (Props/PacmanGrid.lean): the packaged `example_grid`, all 366 agents, by `decide +kernel`.
 -/
 namespace Abmarl
 open World
@@ -195,6 +202,40 @@ theorem reset_goodV {cfg : Cfg} {w0 : World} (hcfg : CfgOK w0) (hA0 : AmmoC w0) 
             have := pacman_reset_establishes cfg w0 s.ex.w w' order _ t' hcfg hR hG.1 hG.2.ammo hG.2.noAmmo ha
             first | exact this.1 | exact this.2.1
 
+theorem reset_inG {cfg : Cfg} {w0 : World} (hcfg : CfgOK w0) (hA0 : AmmoC w0) (hN0 : NoAmmoC w0)
+    {order : List StateComp} (hR : PM.ResetOK cfg w0 order) {s s' : St} (hG : GoodV w0 s)
+    (h : reset cfg order s = .ok s') : Ex.AllInGrid s'.ex.w := by
+  unfold reset at h
+  cases he : Ex.reset cfg.toEx order s.ex with
+  | error e => rw [he] at h; cases h
+  | ok e =>
+    rw [he] at h
+    simp only [Except.ok.injEq] at h
+    subst h
+    have hsh := Ex.reset_shape he
+    unfold Ex.reset at he
+    split at he
+    · cases he
+    · split at he
+      · cases he
+      · rename_i w' t' ha
+        simp only [Except.ok.injEq] at he
+        subst he
+        all_goals
+          unfold GoodV at hG
+          cases hr : s.ex.rewards with
+          | none =>
+            rw [hr] at hG
+            simp only at hG
+            rw [hG] at ha
+            have := pacman_reset_establishes cfg w0 w0 w' order _ t' hcfg hR (SFrame.refl w0) hA0 hN0 ha
+            exact Ex.allInGrid_of_alive this.1 this.2.2
+          | some r =>
+            rw [hr] at hG
+            simp only at hG
+            have := pacman_reset_establishes cfg w0 s.ex.w w' order _ t' hcfg hR hG.1 hG.2.ammo hG.2.noAmmo ha
+            exact Ex.allInGrid_of_alive this.1 this.2.2
+
 theorem runOp_goodV {cfg : Cfg} {w0 : World} (hcfg : CfgOK w0) (hA0 : AmmoC w0) (hN0 : NoAmmoC w0)
     (s : St) (op : Op) (hop : OpOK cfg w0 op) (hG : GoodV w0 s) : GoodV w0 (runOp cfg s op).2 := by
   have hT : ∀ t, GoodV w0 (s.withTape t) := fun t => hG
@@ -285,7 +326,7 @@ states in any order: `PM.OpOK`), steps — ANY action dicts: in the declared spa
 walls, food or ids that do not exist; steps that returned and steps that RAISED, the history goes on with the state the raising
 step left —, observations, reward reads and done queries: once a reset has returned, the world has the static part it was
 built with and legal vitals: health within [0,1], an agent is active exactly when its health is positive, ammunition
-untouched, orientation one of the four directions.  (The cell structure is `pacman_reachable_WInvFloat`, not proved, below.) -/
+untouched, orientation one of the four directions.  (The cell structure is `pacman_reachable_WInvFloat`, below.) -/
 theorem pacman_reachable_inv (cfg : PM.Cfg) (w0 : World) (hcfg : CfgOK w0) (hA0 : AmmoC w0) (hN0 : NoAmmoC w0)
     (t0 : Tape) (ops : List PM.Op) (hops : ∀ op ∈ ops, PM.OpOK cfg w0 op) :
     let s := (PM.runOps cfg { ex := { w := w0, tape := t0 } } ops).2
@@ -343,26 +384,189 @@ theorem pacman_simIface_reachable (cfg : PM.Cfg) (w0 : World) (n : Nat) (hcfg : 
     simp only [PM.toSimIface]
     split <;> simp_all
 
-/-! ## Stated, not proved (judged at run time by `PM.specPM` on every call of the streams)
+/-! ## C03 after steps: the cell structure (`WInvFloat`) in every reachable state -/
 
-```
-theorem pacman_reachable_WInvFloat (cfg w0 hcfg …) (ops) (hops) :
+namespace PM
+
+/-- once a reset has returned the world satisfies `WInvFloat` and every stored position is a grid cell -/
+def FloatS (s : St) : Prop := s.ex.rewards.isSome = true → WInvFloat s.ex.w = true ∧ Ex.AllInGrid s.ex.w
+
+theorem runOp_floatS {cfg : Cfg} {w0 : World} (hcfg : CfgOK w0) (hA0 : AmmoC w0) (hN0 : NoAmmoC w0)
+    (s : St) (op : Op) (hop : OpOK cfg w0 op) (hG : GoodV w0 s) (hF : FloatS s) : FloatS (runOp cfg s op).2 := by
+  have hT : ∀ t, FloatS (s.withTape t) := fun t => hF
+  cases op with
+  | reset order tape =>
+    simp only [runOp]
+    cases h : reset cfg order (s.withTape tape) with
+    | error e => exact hF
+    | ok s' =>
+      obtain ⟨_, hI, _, _⟩ := reset_goodV hcfg hA0 hN0 hop (s := s.withTape tape) hG h
+      exact fun _ => ⟨WInvFloat_of_WInv hI, reset_inG hcfg hA0 hN0 hop (s := s.withTape tape) hG h⟩
+  | step acts tape =>
+    simp only [runOp]
+    intro hs
+    rw [step_rewards_isSome] at hs
+    exact ⟨step_float cfg (s.withTape tape) acts (hT tape hs).1,
+      step_prim prim_inG cfg (s.withTape tape) acts (hT tape hs).2⟩
+  | obs a tape =>
+    simp only [runOp]
+    cases h : getObs cfg (s.withTape tape) a with
+    | error e => exact hF
+    | ok r =>
+      obtain ⟨o, s'⟩ := r
+      unfold getObs at h
+      cases he : Ex.getObs cfg.toEx (s.withTape tape).ex a with
+      | error e => rw [he] at h; cases h
+      | ok r2 =>
+        obtain ⟨o2, e2⟩ := r2
+        rw [he] at h
+        simp only [Except.ok.injEq, Prod.mk.injEq] at h
+        obtain ⟨t', rfl⟩ := Ex.getObs_shape he
+        rw [← h.2]
+        exact hF
+  | rew a =>
+    simp only [runOp]
+    cases h : getReward cfg s a with
+    | error e => exact hF
+    | ok r =>
+      obtain ⟨x, s'⟩ := r
+      unfold getReward at h
+      cases he : Ex.getReward cfg.toEx s.ex a with
+      | error e => rw [he] at h; cases h
+      | ok r2 =>
+        obtain ⟨x2, e2⟩ := r2
+        rw [he] at h
+        simp only [Except.ok.injEq, Prod.mk.injEq] at h
+        obtain ⟨r0, hr0, _, rfl⟩ := Ex.getReward_shape he
+        rw [← h.2]
+        intro _
+        exact hF (by rw [hr0]; rfl)
+  | done a => exact hF
+  | allDone => exact hF
+
+theorem runOps_floatS {cfg : Cfg} {w0 : World} (hcfg : CfgOK w0) (hA0 : AmmoC w0) (hN0 : NoAmmoC w0) (ops : List Op) :
+    ∀ (s : St), (∀ op ∈ ops, OpOK cfg w0 op) → GoodV w0 s → FloatS s → FloatS (runOps cfg s ops).2 := by
+  induction ops with
+  | nil => intro s _ _ h; exact h
+  | cons op ops ih =>
+    intro s hops hG hF
+    have h1 := runOp_goodV hcfg hA0 hN0 s op (hops op List.mem_cons_self) hG
+    have h2 := runOp_floatS hcfg hA0 hN0 s op (hops op List.mem_cons_self) hG hF
+    simp only [runOps]
+    split
+    · exact h2
+    · exact ih _ (fun o ho => hops o (List.mem_cons_of_mem _ ho)) h1 h2
+
+end PM
+
+/-- **C03 for `PacmanSim` / `PacmanSimSimple`: the cell structure in EVERY reachable state.**  From the constructed world
+`w0`, after ANY history of resets (`PM.OpOK`), steps — ANY action dicts, steps that returned and steps that RAISED (the history
+goes on with the state the raising step left) —, observations, reward reads and done queries: once a reset has returned, the
+world satisfies `PM.WInvFloat` — the tables have their shape, no cell holds an id twice, whoever is stored in a cell is an agent
+of the simulation whose stored position is that cell (inside the grid), no two occupants of a cell have encodings that may not
+overlap, the vitals are legal and the overlap table is symmetric.  (`WInvFloat` is `WInv` without "stored ⇒ active" and
+"active ⇒ stored", the two clauses the class does NOT keep: `pacman_refused_teleport_witness`,
+`pacman_teleport_outside_grid_raises`.) -/
+theorem pacman_reachable_WInvFloat (cfg : PM.Cfg) (w0 : World) (hcfg : CfgOK w0) (hA0 : AmmoC w0) (hN0 : NoAmmoC w0)
+    (t0 : Tape) (ops : List PM.Op) (hops : ∀ op ∈ ops, PM.OpOK cfg w0 op) :
     let s := (PM.runOps cfg { ex := { w := w0, tape := t0 } } ops).2
-    s.ex.rewards.isSome = true → PM.WInvFloat s.ex.w = true
+    s.ex.rewards.isSome = true → PM.WInvFloat s.ex.w = true := by
+  intro s hs
+  exact (PM.runOps_floatS hcfg hA0 hN0 ops { ex := { w := w0, tape := t0 } } hops rfl (fun h => by cases h) hs).1
 
-theorem pacman_step_keeps_WInv / pacman_step_noRaise (cfg : PM.Cfg) (s : PM.St) (r : Ex.Ledger) (acts : List (Aid × Int))
+/-- … and the stored position of EVERY agent of the simulation — active, dead, floating after a refused teleport — is a
+cell of the grid -/
+theorem pacman_reachable_positions_in_grid (cfg : PM.Cfg) (w0 : World) (hcfg : CfgOK w0) (hA0 : AmmoC w0) (hN0 : NoAmmoC w0)
+    (t0 : Tape) (ops : List PM.Op) (hops : ∀ op ∈ ops, PM.OpOK cfg w0 op) :
+    let s := (PM.runOps cfg { ex := { w := w0, tape := t0 } } ops).2
+    s.ex.rewards.isSome = true → ∀ a < w0.n, s.ex.w.inGrid (s.ex.w.stOf a).pos = true := by
+  intro s hs a ha
+  have hF := (pacman_reachable_inv cfg w0 hcfg hA0 hN0 t0 ops hops hs).1
+  exact (PM.runOps_floatS hcfg hA0 hN0 ops { ex := { w := w0, tape := t0 } } hops rfl (fun h => by cases h) hs).2 a (by rw [sframe_n hF]; exact ha)
+
+/-- **observations of `PacmanSim` / `PacmanSimSimple` lie in the declared space, in every reachable state**: after any
+history as in `pacman_reachable_WInvFloat` (steps that raised included), once a reset has returned, for EVERY agent of the
+simulation — active, dead and still stored in its cell, floating in no cell after a refused teleport — every observer list the
+simulation was built with and every tape, `get_obs` returns, and `Ex.obsInSpace` holds: the key list of the observation dict is
+exactly the declared one and every value lies in the space its observer declared.  (The world may violate `WInv`; no transport
+to a `WInv` world exists — an active agent stored nowhere shades the masks from an empty cell —, so the observer theorems are
+re-proved from `WInvFloat`: Lemmas/PacmanObs.lean.)  Hypotheses as in `examples_observations_in_space`: positive encodings,
+non-negative initial ammunition. -/
+theorem pacman_observations_in_space (cfg : PM.Cfg) (w0 : World) (hcfg : CfgOK w0) (hA0 : AmmoC w0) (hN0 : NoAmmoC w0)
+    (t0 : Tape) (ops : List PM.Op) (hops : ∀ op ∈ ops, PM.OpOK cfg w0 op)
+    (henc : ∀ b < w0.n, 0 < w0.encOf b) (hammo : ∀ b < w0.n, 0 ≤ (w0.cfgOf b).initAmmo)
+    (ks : List Observers.Kind) (hks : cfg.observers = some ks) (a : Aid) (ha : a < w0.n) :
+    let s := (PM.runOps cfg { ex := { w := w0, tape := t0 } } ops).2
+    s.ex.rewards.isSome = true →
+    ∀ t, ∃ o s', PM.getObs cfg (s.withTape t) a = .ok (o, s') ∧ Ex.obsInSpace s.ex.w a ks o = true := by
+  intro s hs t
+  have hF := (pacman_reachable_inv cfg w0 hcfg hA0 hN0 t0 ops hops hs).1
+  have hW := PM.runOps_floatS hcfg hA0 hN0 ops { ex := { w := w0, tape := t0 } } hops rfl (fun h => by cases h) hs
+  have hn : s.ex.w.n = w0.n := sframe_n hF
+  exact PM.getObs_float cfg (s.withTape t) a ks hks hs hW.1 hW.2 (show a < s.ex.w.n by rw [hn]; exact ha)
+    (fun b (hb : b < s.ex.w.n) => show 0 < s.ex.w.encOf b by
+      rw [sframe_encOf hF]; exact henc b (by rw [← hn]; exact hb))
+    (fun b (hb : b < s.ex.w.n) => show 0 ≤ (s.ex.w.cfgOf b).initAmmo by
+      rw [sframe_cfgOf hF]; exact hammo b (by rw [← hn]; exact hb))
+
+/-- … and so does every state the managers can reach through `PM.toSimIface` -/
+theorem pacman_simIface_WInvFloat (cfg : PM.Cfg) (w0 : World) (n : Nat) (hcfg : CfgOK w0) (hA0 : AmmoC w0)
+    (hN0 : NoAmmoC w0) (hR : PM.ResetOK cfg w0 cfg.comps) {s : PM.St} (h : PM.Reach cfg w0 n s) : PM.FloatS s := by
+  have hW : ∀ s : PM.St, s.withTape s.ex.tape = s := fun s => rfl
+  induction h with
+  | init t => exact fun h => by cases h
+  | @reset s hr ih =>
+    have hG := pacman_simIface_reachable cfg w0 n hcfg hA0 hN0 hR hr
+    have hg := PM.runOp_floatS hcfg hA0 hN0 s (.reset cfg.comps s.ex.tape) hR hG ih
+    simp only [PM.runOp, hW] at hg
+    simp only [PM.toSimIface]
+    cases hr : PM.reset cfg cfg.comps s with
+    | error e => exact ih
+    | ok s' => simpa [hr] using hg
+  | @step s acts hr ih =>
+    have hG := pacman_simIface_reachable cfg w0 n hcfg hA0 hN0 hR hr
+    have hg := PM.runOp_floatS (cfg := cfg) hcfg hA0 hN0 s (.step acts s.ex.tape) trivial hG ih
+    simpa only [PM.runOp, hW, PM.toSimIface] using hg
+  | @obs s a hr ih =>
+    have hG := pacman_simIface_reachable cfg w0 n hcfg hA0 hN0 hR hr
+    have hg := PM.runOp_floatS (cfg := cfg) hcfg hA0 hN0 s (.obs a s.ex.tape) trivial hG ih
+    simp only [PM.runOp, hW] at hg
+    simp only [PM.toSimIface]
+    split <;> simp_all
+  | @reward s a hr ih =>
+    have hG := pacman_simIface_reachable cfg w0 n hcfg hA0 hN0 hR hr
+    have hg := PM.runOp_floatS (cfg := cfg) hcfg hA0 hN0 s (.rew a) trivial hG ih
+    simp only [PM.runOp] at hg
+    simp only [PM.toSimIface]
+    split <;> simp_all
+
+
+/-! ## C02 / C03: a step that must not raise -/
+
+/-- **a `step` from a `PM.stepPre` state returns and leaves the whole invariant.**  `PM.stepPre cfg w r acts` is the explicit
+decidable hypothesis of the judge: `w` satisfies `WInv`, pacman is alive, everybody but pacman and the food is alive, the
+documented agent mix `PM.cfgWF`, the usable teleport cells `PM.teleSafe`, the action dict holds points of `Discrete(5)` for
+pacman and for some of the other learning agents (distinct keys), every learning agent has a reward entry.  Then, for EVERY
+such configuration (either class), world, reward dict, action dict, tape and `step_count`: `step` does not raise, the world
+it leaves satisfies `WInv` again — although in between it does not: a pacman eaten in the first overlap loop of `PacmanSim`
+stays in its cell, dead, while the baddies move and until the last statement takes it out —, and `teleSafe` still holds (so
+the next step from it is covered too, as long as pacman lives). -/
+theorem pacman_step_keeps_WInv (cfg : PM.Cfg) (s : PM.St) (r : Ex.Ledger) (acts : List (Aid × Int))
     (hr : s.ex.rewards = some r) (hpre : PM.stepPre cfg s.ex.w r acts = true) :
     (PM.step cfg s acts).2 = none ∧ (PM.step cfg s acts).1.ex.w.WInv = true ∧
-    PM.teleSafe cfg (PM.step cfg s acts).1.ex.w = true
+    PM.teleSafe cfg (PM.step cfg s acts).1.ex.w = true :=
+  PM.step_of_stepPre cfg s r acts hr hpre
 
-theorem pacman_observations_in_space (… as reach_observations_in_space, for cfg.observers = some ks …)
-```
-`PM.stepPre` is the EXPLICIT decidable hypothesis: `WInv`, pacman alive, everybody but pacman and the food alive, the
-documented agent mix `PM.cfgWF`, the teleport cells usable `PM.teleSafe`, in-space actions of learning agents incl. pacman
-with distinct keys, a full ledger.  The packaged layouts satisfy `cfgWF` and `teleSafe` after `reset`: checked on the real
-objects at run time (tag `ex-pre`/the judge's `stepPre` branch is taken in the packaged-layout cases of every run: those
-steps must not raise and must leave `WInv`).
--/
+/-- **C02: every action drawn from the declared action spaces is processed without error** — `pacman_step_keeps_WInv`, the
+clause the judge `PM.specPM` uses for a step that raised -/
+theorem pacman_step_noRaise (cfg : PM.Cfg) (s : PM.St) (r : Ex.Ledger) (acts : List (Aid × Int))
+    (hr : s.ex.rewards = some r) (hpre : PM.stepPre cfg s.ex.w r acts = true) : (PM.step cfg s acts).2 = none :=
+  (pacman_step_keeps_WInv cfg s r acts hr hpre).1
+
+/-! ## Formerly "Stated, not proved"
+
+`pacman_reachable_WInvFloat`, `pacman_observations_in_space`, `pacman_step_keeps_WInv`, `pacman_step_noRaise` are theorems
+above; `pacman_hist` is in Props/PacmanHist.lean, the packaged `example_grid` in Props/PacmanGrid.lean. -/
 
 /-! ## Witnesses -/
 
@@ -462,6 +666,95 @@ example :
       · trivial
       · trivial)
     (by decide +kernel)
+
+/-- `pacman_reachable_WInvFloat` is not vacuous: the history of the refused teleport (a raising step included) ends in a
+world that satisfies `WInvFloat` by the theorem — and NOT `WInv` -/
+example :
+    let w0 := exPMWorld [(1, [3]), (4, [3, 4]), (3, [1, 4])] 21 (9, 1) (9, 20)
+    let s := (PM.runOps (exPMCfg false) { ex := { w := w0 } }
+      [exPMReset, .step [(0, 1), (1, 0)] [], .step [(0, 0), (1, 0)] []]).2
+    PM.WInvFloat s.ex.w = true ∧ s.ex.w.WInv = false :=
+  ⟨pacman_reachable_WInvFloat (exPMCfg false) _ ((cfgOKb_iff _).mp (by decide +kernel))
+    (fun a _ h => by
+      have : a = 0 ∨ a = 1 ∨ a = 2 ∨ 3 ≤ a := by omega
+      rcases this with rfl | rfl | rfl | h3
+      · cases h
+      · cases h
+      · cases h
+      · simp [World.cfgOf, exPMWorld, List.getD_eq_getElem?_getD, h3] at h)
+    ((noAmmoCb_iff _).mp (by decide +kernel)) [] _
+    (fun op hop => by
+      simp only [List.mem_cons, List.mem_nil_iff, or_false] at hop
+      rcases hop with rfl | rfl | rfl
+      · exact ⟨Ex.resetOK_of_b (by decide +kernel), by simp [exPMReset]⟩
+      · trivial
+      · trivial)
+    (by decide +kernel), by decide +kernel⟩
+
+/-- `pacman_observations_in_space` is not vacuous: the observation of pacman, ACTIVE and stored in NO cell after the refused
+teleport (the world violates `WInv`) -/
+example :
+    let w0 := exPMWorld [(1, [3]), (4, [3, 4]), (3, [1, 4])] 21 (9, 1) (9, 20)
+    let s := (PM.runOps (exPMCfg false) { ex := { w := w0 } }
+      [exPMReset, .step [(0, 1), (1, 0)] [], .step [(0, 0), (1, 0)] []]).2
+    ∃ o s', PM.getObs (exPMCfg false) (s.withTape []) 0 = .ok (o, s') ∧ Ex.obsInSpace s.ex.w 0 [.absolute] o = true :=
+  pacman_observations_in_space (exPMCfg false) _ ((cfgOKb_iff _).mp (by decide +kernel))
+    (fun a _ h => by
+      have : a = 0 ∨ a = 1 ∨ a = 2 ∨ 3 ≤ a := by omega
+      rcases this with rfl | rfl | rfl | h3
+      · cases h
+      · cases h
+      · cases h
+      · simp [World.cfgOf, exPMWorld, List.getD_eq_getElem?_getD, h3] at h)
+    ((noAmmoCb_iff _).mp (by decide +kernel)) [] _
+    (fun op hop => by
+      simp only [List.mem_cons, List.mem_nil_iff, or_false] at hop
+      rcases hop with rfl | rfl | rfl
+      · exact ⟨Ex.resetOK_of_b (by decide +kernel), by simp [exPMReset]⟩
+      · trivial
+      · trivial)
+    (by decide +kernel) (by decide +kernel) [.absolute] rfl 0 (by decide) (by decide +kernel) []
+
+/-- `pacman_step_keeps_WInv` is not vacuous: after `reset` on the 21-column world the teleporting step satisfies `stepPre`
+(`PacmanSim`) -/
+example :
+    let s := (PM.runOps (exPMCfg false) { ex := { w := exPMWorld [(1, [3, 4]), (4, [1, 3, 4]), (3, [1, 4])] 21 (9, 1) (0, 5) } }
+      [exPMReset]).2
+    PM.stepPre (exPMCfg false) s.ex.w [(0, 0), (1, 0)] [(0, 1), (1, 0)] = true ∧ s.ex.rewards = some [(0, 0), (1, 0)] ∧
+    (PM.step (exPMCfg false) s [(0, 1), (1, 0)]).2 = none := by
+  intro s
+  have h1 : PM.stepPre (exPMCfg false) s.ex.w [(0, 0), (1, 0)] [(0, 1), (1, 0)] = true := by decide +kernel
+  have h2 : s.ex.rewards = some [(0, 0), (1, 0)] := by decide +kernel
+  exact ⟨h1, h2, pacman_step_noRaise (exPMCfg false) s _ _ h2 h1⟩
+
+/-- a `PacmanSimSimple` world: 10×19, pacman (0) at (9,1), `baddie_0 … baddie_4` (1…5) in row 0, a piece of food (6) on (9,18) -/
+def exPMWorldS : World :=
+  let baddie (c : Int) : AgentCfg :=
+    { enc := 4, initPos := some (0, c), initHealth := some 1, moving := true, moveRange := 1, hasOrient := true,
+      initOrient := some 1, observing := true, viewRange := 0 }
+  { rows := 10, cols := 19, overlap := [(1, [3, 4]), (4, [1, 3, 4]), (3, [1, 4])], cells := List.replicate 190 [],
+    cfg := [{ enc := 1, initPos := some (9, 1), initHealth := some 1, moving := true, moveRange := 1, hasOrient := true,
+              initOrient := some 1, observing := true, viewRange := 1 },
+            baddie 2, baddie 4, baddie 6, baddie 8, baddie 10, { enc := 3, initPos := some (9, 18), initHealth := some 1 }],
+    st := [{}, {}, {}, {}, {}, {}, {}] }
+
+def exPMCfgS : PM.Cfg :=
+  { simple := true, learning := [true, true, true, true, true, true, false], comps := [.health, .orient, .position .position {}],
+    observers := some [.absolute], pacman := 0, food := [6], baddies := [1, 2, 3, 4, 5], scheme := { kill := none },
+    named := [some 1, some 2, some 3, some 4, some 5] }
+
+/-- … and for `PacmanSimSimple`: pacman walks onto (9,0), is teleported to (9,18) and eats the food there, then the five
+scripted baddies move; `stepPre` holds, so the step returns and leaves `WInv` by the theorem -/
+example :
+    let s := (PM.runOps exPMCfgS { ex := { w := exPMWorldS } } [exPMReset]).2
+    s.ex.rewards = some [(0, 0), (1, 0), (2, 0), (3, 0), (4, 0), (5, 0)] ∧
+    PM.stepPre exPMCfgS s.ex.w [(0, 0), (1, 0), (2, 0), (3, 0), (4, 0), (5, 0)] [(0, 1)] = true ∧
+    ((PM.step exPMCfgS s [(0, 1)]).1.ex.w.stOf 0).pos = (9, 18) ∧ ((PM.step exPMCfgS s [(0, 1)]).1.ex.w.stOf 6).active = false ∧
+    (PM.step exPMCfgS s [(0, 1)]).1.ex.w.WInv = true := by
+  intro s
+  have h2 : s.ex.rewards = some [(0, 0), (1, 0), (2, 0), (3, 0), (4, 0), (5, 0)] := by decide +kernel
+  have h1 : PM.stepPre exPMCfgS s.ex.w [(0, 0), (1, 0), (2, 0), (3, 0), (4, 0), (5, 0)] [(0, 1)] = true := by decide +kernel
+  exact ⟨h2, h1, by decide +kernel, by decide +kernel, (pacman_step_keeps_WInv exPMCfgS s _ _ h2 h1).2.1⟩
 
 /-- the manager theorems are inhabited: an all-step run over the 21-column world -/
 example : specC01 .allStep 3 (exPMCfg false).isLearning false
